@@ -38,6 +38,7 @@ var TamperKinds = []string{
 	"wildcard-replay",             // an existing name answered with the zone's genuine wildcard RRset + RRSIG, no proof
 	"wildcard-replay-other-nsec",  // same, with genuine NSEC/NSEC3 of another interval as "proof"
 	"wildcard-replay-forged-nsec", // same, with a forged unsigned NSEC owned outside the zone that spans the name
+	"dname-cname-prefix",          // DNAME answer: the unsigned synthesised CNAME's leading labels altered (suffix and length kept)
 }
 
 // DenialKinds are the C02 tamperings: every record they add is a genuine, correctly
@@ -60,7 +61,9 @@ var DenialKinds = []string{
 // step unverifiable (as opposed to padding or hints a validator may legitimately drop).
 func Invalidating(kind string) bool {
 	switch kind {
-	case "inject-auth", "inject-answer", "set-ad", "ttl-inflate":
+	case "inject-auth", "inject-answer", "set-ad", "ttl-inflate", "dname-cname-prefix":
+		// (dname-cname-prefix: the synthesised CNAME is redundant with the signed DNAME; a
+		// validator may discard it and synthesise its own. It must never relay the altered one.)
 		// padding: a validator may drop records it has no use for and serve the
 		// authenticated rest; what it must never do is relay them (clause 1)
 		return false
@@ -102,6 +105,25 @@ func Apply(kind string, a *Answer, attacker, other *Zone) (*dns.Msg, bool) {
 		})
 	}
 	switch kind {
+	case "dname-cname-prefix":
+		if a.Kind != "dname" {
+			return nil, false
+		}
+		m.Answer = mapSection(m.Answer, func(r dns.RR) dns.RR {
+			if c, ok := r.(*dns.CNAME); ok && len(c.Target) > 2 {
+				b := []byte(c.Target)
+				if b[0] == 'x' {
+					b[0] = 'y'
+				} else if b[0] != '.' && b[0] != '\\' {
+					b[0] = 'x'
+				} else {
+					return r
+				}
+				c.Target = string(b)
+				changed = true
+			}
+			return r
+		})
 	case "flip-rdata":
 		m.Answer = mapSection(m.Answer, func(r dns.RR) dns.RR {
 			switch v := r.(type) {
